@@ -113,7 +113,9 @@ impl Obs {
     pub fn flow_by_ref(&self, r: &FlowRef) -> Option<&FlowV> {
         match r {
             FlowRef::Id(i) => self.flows.iter().find(|f| f.id == *i),
-            FlowRef::Label(l) => self.flows.iter().find(|f| f.label.as_ref() == Some(l)),
+            // labels are not unique; the contract takes the first match in its storage order
+            // (start epoch, then id)
+            FlowRef::Label(l) => self.flows.iter().filter(|f| f.label.as_ref() == Some(l)).min_by_key(|f| (f.start, f.id)),
         }
     }
     pub fn open_of(&self, acct: usize, dur: u64) -> Option<(u128, u64, u128)> {
